@@ -105,6 +105,8 @@ def collect(cg, syn):
                         [n for n in walk(sf["body"]) if n.get("k") == "index" and n["l"] <= r["l"] <= n["l"] + 3]
                     if c:
                         ik = c[0]["i"].get("k")
+                        if ik == "range" and "s" not in c[0]["i"] and "e" not in c[0]["i"] and len(c) == 1 and cc in ("str[]", "Vec[]", "Index[]"):
+                            continue        # `x[..]` (RangeFull) is total: the whole string / slice, no bounds to violate
                         step = last_step(c[0]["e"]) + "[" + ("lit" if ik == "lit" else "range" if ik == "range" else "expr") + "]"
                 elif "::" in cc and cc.split("::")[0] in ("Vec", "String", "VecDeque", "RefCell", "str", "slice"):
                     nm = cc.split("::")[1]
